@@ -1,6 +1,8 @@
 package httpscenario
 
 import (
+	"io"
+
 	"github.com/spf13/afero"
 	phttp "github.com/yandex/pandora/components/guns/http"
 	"github.com/yandex/pandora/core"
@@ -18,6 +20,17 @@ func WrapGun(g Gun) core.Gun {
 
 type gunWrapper struct {
 	Gun Gun
+}
+
+var _ io.Closer = (*gunWrapper)(nil)
+
+// Close closes the wrapped gun. The engine closes the guns it created through io.Closer;
+// without this method the wrapper hides the Close of the gun it wraps.
+func (g *gunWrapper) Close() error {
+	if closer, ok := g.Gun.(io.Closer); ok {
+		return closer.Close()
+	}
+	return nil
 }
 
 func (g *gunWrapper) Shoot(ammo core.Ammo) {
